@@ -41,13 +41,13 @@ fn v(sig: String, detail: String) -> Violation {
     Violation::new(sig, detail)
 }
 
-struct Paramizer<'a> {
-    t: &'a mut Tape,
-    n: usize,
-    values: BTreeMap<String, Term>,
-    scope_values: BTreeMap<String, usize>,
-    positions: Vec<String>,
-    text_path: bool,
+pub(crate) struct Paramizer<'a> {
+    pub(crate) t: &'a mut Tape,
+    pub(crate) n: usize,
+    pub(crate) values: BTreeMap<String, Term>,
+    pub(crate) scope_values: BTreeMap<String, usize>,
+    pub(crate) positions: Vec<String>,
+    pub(crate) text_path: bool,
 }
 
 impl<'a> Paramizer<'a> {
@@ -56,7 +56,7 @@ impl<'a> Paramizer<'a> {
         format!("p{}", self.n)
     }
     /// replace some ground sub-terms by parameters
-    fn term(&mut self, t: &Term, pos: &str, depth: usize) -> Term {
+    pub(crate) fn term(&mut self, t: &Term, pos: &str, depth: usize) -> Term {
         let ground_leaf = !matches!(t, Term::Var(_) | Term::Param(_));
         if ground_leaf && self.t.chance(1, 3) && self.n < 6 {
             // the same parameter can occur at several places (e.g. in two alternatives of a
@@ -107,7 +107,7 @@ impl<'a> Paramizer<'a> {
             t => t.clone(),
         }
     }
-    fn pred(&mut self, p: &Pred, pos: &str) -> Pred {
+    pub(crate) fn pred(&mut self, p: &Pred, pos: &str) -> Pred {
         Pred {
             name: p.name.clone(),
             terms: p.terms.iter().map(|t| self.term(t, pos, 0)).collect(),
@@ -122,7 +122,7 @@ impl<'a> Paramizer<'a> {
             })
             .collect()
     }
-    fn rule(&mut self, r: &Rule, is_query: bool) -> Rule {
+    pub(crate) fn rule(&mut self, r: &Rule, is_query: bool) -> Rule {
         Rule {
             head: if is_query { r.head.clone() } else { self.pred(&r.head, "rule-head") },
             body: r.body.iter().map(|p| self.pred(p, "rule-body")).collect(),
